@@ -677,6 +677,13 @@ func run1(c Case, scale int) ev.Verdict {
 		return ev.Fail("SendWithCallbacks panicked: %v", got.err)
 	}
 
+	if runaway {
+		// the shape of the known finding keep-output-reruns-forever came back: how such a send ought
+		// to end is not stated (the reference model re-selects the callback for ever, it has no
+		// answer either), so a send that returns is not judged -- and the model is not asked
+		return ev.Verdict{OK: true, Infeasible: true, Classes: []string{"runaway-shape-returned"}}
+	}
+
 	var (
 		chunks   []string
 		chunkAge []time.Duration // how long before the send returned the chunk was delivered
